@@ -270,6 +270,7 @@ pub mod fs {
         pub fn create<P: AsRef<Path>>(path: P) -> io::Result<File> {
             let path = path.as_ref().to_string_lossy().to_string();
             dsim::yield_point(dsim::Op::Small);
+            disk_time(200);
             dsim::with(|w| {
                 let rate = w.cfg.faults.file_create_err;
                 let fail = w.fault("file_create_err", rate);
@@ -281,6 +282,27 @@ pub mod fs {
                 Ok(File { path, pos: 0, writable: true })
             })
         }
+    }
+
+    /// A file operation takes simulated time: `base_us` plus, when the disk-stall fault fires, a
+    /// stall of up to the configured maximum. Never sleeps while unwinding (writes from Drop).
+    fn disk_time(base_us: u64) {
+        if std::thread::panicking() {
+            return;
+        }
+        let stall_ms = dsim::try_with(|w| {
+            if w.current.is_none() {
+                return 0;
+            }
+            let (rate, max) = (w.cfg.faults.disk_stall, w.cfg.faults.disk_stall_max_ms);
+            if w.fault("disk_stall", rate) {
+                1 + w.choose(max.max(1)) as u64
+            } else {
+                0
+            }
+        })
+        .unwrap_or(0);
+        dsim::sleep(std::time::Duration::from_micros(base_us + stall_ms * 1000));
     }
 
     impl Read for File {
@@ -300,6 +322,7 @@ pub mod fs {
             if !self.writable {
                 return Err(io::Error::new(io::ErrorKind::PermissionDenied, "not opened for writing"));
             }
+            disk_time(50 + buf.len() as u64 / 100);
             dsim::try_with(|w| {
                 let rate = w.cfg.faults.file_write_err;
                 let fail = w.fault("file_write_err", rate);
